@@ -132,6 +132,30 @@ CHECKS = {
             'classes defined mid-history) is read back after every operation; instances are created with and '
             'without explicit tags and given instance-level components.',
             'Depth-bounded (4 / 5).', 'DESIGN.md section 4 C20'),
+    'C07': ('ilv', 'exhaustive enumeration of all merge orders of the atomic steps (build, execute) of 2-3 models and '
+                   'ambient perturbations, plus a completely enumerated process / hash-seed matrix',
+            'Every interleaving of the step sequences of two (three) scripted stochastic models and perturbations of '
+            'random, numpy.random and an unrelated model is executed on fresh objects; each model\'s full trace digest '
+            'must equal its solo digest; the same digests must come out of fresh interpreters under 4 hash seeds, '
+            'fork and spawn workers and batch_run workers.',
+            'Exhaustive relative to 3 model kinds, build+2 (3) steps per model, 2 perturbation atoms; seeds from '
+            'VERIF_SEED (structure and verdict seed-independent).', 'DESIGN.md section 4 C07'),
+    'C15': ('sched', 'exhaustive enumeration of worker schedules (per-worker task sequences x completion order) with '
+                     'real forked workers behind ECAgent.Batching.Pool; exhaustive serial product; fault injection '
+                     'at every batch position in every schedule',
+            'batch_run is executed under every outcome of FIFO dispatch at chunksize 1 for batches of up to 4 (5) '
+            'executions on 2..3 (5) workers and serially over grids x repetitions x step limits x collector '
+            'selections; self-identifying records are compared with one reference result per execution.',
+            'Schedule model: FIFO, chunksize 1, workers share nothing (each distinct per-worker task sequence runs '
+            'once in a real forked process); bound to multiprocessing.Pool by a conformance leg.',
+            'DESIGN.md section 4 C15'),
+    'C16': ('sched', 'exhaustive enumeration of score tables x modes x shapes (serial) and of worker schedules for '
+                     'selected tables, exact-rational reference',
+            'Every assignment of values from {-2^70, 0, 1, 2^70} (thorough adds -3, 2^71) to every (combination, '
+            'repetition) cell of every shape with <= 6 cells, every mode; parameters, records, exact aggregate and '
+            'first-optimum rule checked; identical outcome under every schedule.',
+            'Exhaustive relative to the value set and shapes; floats restricted to dyadic values.',
+            'DESIGN.md section 4 C16'),
 }
 
 PENDING = {}
